@@ -142,3 +142,11 @@ pub fn sym_b() -> String { String::new() }
 #[derive(TS)] #[ts(optional_fields = nullable)] pub struct OA4<T: TS> { pub a: Option<T>, pub b: Vec<T> }
 #[derive(TS)] #[doc = "cdoc"] #[ts(rename = "Ren")] pub struct DD5<T> { #[doc = "da"] pub a: Vec<T>, #[ts(skip)] #[doc = "hidden"] pub s: i32 }
 #[derive(TS)] #[ts(rename = "Ren")] pub struct DN5<T> { pub a: Vec<T>, #[ts(skip)] pub s: i32 }
+#[derive(TS)] pub struct G20<T = (), U = (i32, String), V = [u8; 2]> { pub a: T, pub b: U, pub c: V }
+#[derive(TS)] pub struct G21<A = i32, B = (A, bool)> { pub a: A, pub b: B }
+#[derive(TS)] #[doc = "cdoc"] #[ts(type = "0 | 1")] pub enum DD6<T: TS> { A(T), B }
+#[derive(TS)] #[ts(type = "0 | 1")] pub enum DN6<T: TS> { A(T), B }
+#[derive(TS)] #[doc = "cdoc"] #[ts(as = "Vec<T>")] pub enum DD7<T> { A(T) }
+#[derive(TS)] #[ts(as = "Vec<T>")] pub enum DN7<T> { A(T) }
+#[derive(TS)] #[doc = "cdoc"] #[ts(as = "Vec<T>")] pub struct DD8<T> { pub never: T }
+#[derive(TS)] #[ts(as = "Vec<T>")] pub struct DN8<T> { pub never: T }
